@@ -2,24 +2,27 @@ package ordset
 
 import rt "github.com/apmckinlay/gsuneido/zzverifrt"
 
+// vk: a key of 0..1 arbitrary bytes (the empty key is a legal index key)
+func vk(name string) string { return rt.Str(name, rt.Pick(name+"_len", 2)) }
+
 func vhist(n int) {
 	var set Set
 	keys := make([]string, n)
 	for i := 0; i < n; i++ {
-		keys[i] = rt.Str("k"+string(rune('0'+i)), 1)
+		keys[i] = vk("k" + string(rune('0'+i)))
 		ok := set.Insert(keys[i])
 		rt.Assert("ordset/insert-accepted", ok)
 	}
 	rt.Reach("built")
 	rt.Assert("ordset/nonempty", !set.Empty())
-	from, to := rt.Str("from", 1), rt.Str("to", 1)
+	from, to := vk("from"), rt.Str("to", 1)
 	rt.Assume(from <= to)
 	want := false
 	for i := 0; i < n; i++ {
 		want = rt.Or(want, rt.And(from <= keys[i], keys[i] <= to))
 	}
 	rt.Assert("ordset/anyinrange", set.AnyInRange(from, to) == want)
-	p := rt.Str("p", 1)
+	p := vk("p")
 	wantc := false
 	for i := 0; i < n; i++ {
 		wantc = rt.Or(wantc, keys[i] == p)
@@ -53,7 +56,7 @@ var vshapes = [][]int{{0}, {1}, {3}, {4}, {2, 2}, {4, 2}, {2, 4}, {4, 4}, {1, 4,
 // arbitrary key; afterwards Contains/AnyInRange for an arbitrary probe/range equal the set model
 // and the invariant holds again. Covers histories of any length that reach these shapes.
 //
-//symgo:harness prop=C39 tier=quick shards=16 timeout=400 ttimeout=1700 shrink=util/ordset/ordset.go:nodeSize=4 bounds=pre-state_shapes_of_0..16_keys_in_1..4_leaves;1-byte_keys;one_insert;nodeSize_shrunk_to_4
+//symgo:harness prop=C39 tier=quick shards=16 timeout=400 ttimeout=1700 shrink=util/ordset/ordset.go:nodeSize=4 bounds=pre-state_shapes_of_0..16_keys_in_1..4_leaves;keys_of_0..1_bytes_(incl._the_empty_key);one_insert;nodeSize_shrunk_to_4
 func VerifC39OrdsetStep() {
 	shape := vshapes[rt.Pick("shape", len(vshapes))]
 	var set Set
@@ -65,8 +68,11 @@ func VerifC39OrdsetStep() {
 			lf = &leafNode{}
 		}
 		for i := 0; i < sz; i++ {
-			k := rt.Str("k"+string(rune('a'+len(keys))), 1)
-			if len(keys) > 0 {
+			var k string
+			if len(keys) == 0 {
+				k = vk("ka") // only the smallest key can be empty
+			} else {
+				k = rt.Str("k"+string(rune('a'+len(keys))), 1)
 				rt.Assume(prev < k)
 			}
 			prev = k
@@ -85,7 +91,7 @@ func VerifC39OrdsetStep() {
 			set.tree.size++
 		}
 	}
-	x := rt.Str("x", 1)
+	x := vk("x")
 	ok := set.Insert(x)
 	rt.Reach("inserted")
 	if !ok {
@@ -100,10 +106,10 @@ func VerifC39OrdsetStep() {
 		return m
 	}
 	if len(keys) > 8 || rt.Pick("query", 2) == 0 {
-		p := rt.Str("p", 1)
+		p := vk("p")
 		rt.Assert("ordset/contains", set.Contains(p) == member(p))
 	} else {
-		from, to := rt.Str("from", 1), rt.Str("to", 1)
+		from, to := vk("from"), rt.Str("to", 1)
 		rt.Assume(from <= to)
 		want := rt.And(ok, rt.And(from <= x, x <= to))
 		for _, k := range keys {
@@ -139,7 +145,7 @@ func vinvariant(set *Set) {
 
 // C39 ordset: every history of 4 inserts (thorough 6) of arbitrary 1-byte keys from empty.
 //
-//symgo:harness prop=C39 tier=quick shards=8 timeout=400 ttimeout=1700 shrink=util/ordset/ordset.go:nodeSize=4 bounds=histories_of_4_inserts(thorough_6);1-byte_keys;nodeSize_shrunk_to_4
+//symgo:harness prop=C39 tier=quick shards=8 timeout=400 ttimeout=1700 shrink=util/ordset/ordset.go:nodeSize=4 bounds=histories_of_4_inserts(thorough_6);keys_of_0..1_bytes;nodeSize_shrunk_to_4
 func VerifC39OrdsetSplit() {
 	n := 4
 	if rt.Thorough() {
